@@ -783,4 +783,10 @@ def c17_pol_local_frame(ctx):
     return _r(ctx)
 
 
-RULES = [c17_pol_local_frame, aperture_scaled_once, c01_insertion, c03_registry, c03_xy_exchange, scale_covers, c04_chief_ray, c01_arg_wiring_rule, c01_init_stores, scale_homogeneous, scale_system, scale_relies_on_thickness_edit, mirror, w_flow, dummy_identity]
+def c04_parax_centred(ctx):
+    """shared with C04: scaling a lens with a decentred surface scales its focal length"""
+    from .C04 import parax_centred as _r
+    return _r(ctx)
+
+
+RULES = [c04_parax_centred, c17_pol_local_frame, aperture_scaled_once, c01_insertion, c03_registry, c03_xy_exchange, scale_covers, c04_chief_ray, c01_arg_wiring_rule, c01_init_stores, scale_homogeneous, scale_system, scale_relies_on_thickness_edit, mirror, w_flow, dummy_identity]
